@@ -411,6 +411,13 @@ class Ev:
             self.log.append(" ".join(["m%d" % n[2], str(v)] + [str(a) for a in args]))
             coef = (-1, 2, -3, 4)
             return self.chk(v * 5 + sum(c * a for c, a in zip(coef, args)) + n[2])
+        if k == 'lenlit':
+            self.cnt('len_of_list_literal%d' % len(n[1]))
+            return len(self.seq(n[1]))
+        if k == 'mlenlit':
+            self.cnt('len_of_map_literal%d' % len(n[1]))
+            flat = self.seq([x for kv in n[1] for x in kv])
+            return len(set(flat[0::2]))
         if k == 'list':
             self.cnt('list%d' % len(n[1]))
             return self.seq(n[1])
@@ -533,13 +540,13 @@ def first_line(n):
             if f:
                 return f
         return None
-    if k == 'list':
+    if k in ('list', 'lenlit'):
         for a in n[1]:
             f = first_line(a)
             if f:
                 return f
         return None
-    if k == 'map':
+    if k in ('map', 'mlenlit'):
         for kv in n[1]:
             for a in kv:
                 f = first_line(a)
@@ -631,6 +638,10 @@ def render(n):
         return "(%s)[%s]" % (render(n[1]), render(n[2]))
     if k == 'nileval':
         return "(%s) or %s" % (render(n[1]), operand(n[2]))
+    if k == 'lenlit':
+        return "[" + ", ".join(render(a) for a in n[1]) + "].len()"
+    if k == 'mlenlit':
+        return "(map[int, int] { " + ", ".join("%s: %s" % (render(a), render(b)) for a, b in n[1]) + " }).len()"
     raise ValueError(n)
 
 
@@ -646,7 +657,7 @@ def type_of(n):
         return 'O'
     if k == 'slit':
         return 'S'
-    if k in ('t', 'lit', 'rec', 'neg', 'meth'):
+    if k in ('t', 'lit', 'rec', 'neg', 'meth', 'lenlit', 'mlenlit'):
         return 'I'
     if k in ('tb', 'and', 'or', 'not'):
         return 'B'
@@ -937,6 +948,17 @@ def arity_catalogue():
                 sid = "arity:%s%d(%s)" % ({'f': 'f', 'mk': 'mk.m', 'ov': 'ov.m'}[kind], n,
                                           ",".join({'T': 't', 'S': 'sub', 'R': 'ra', 'RB': 'rb'}[c] for c in combo))
                 out.append((sid, tree))
+    # a built-in applied directly to a LITERAL whose elements log: the result may be known to the compiler, the
+    # elements must still be evaluated, once, in order
+    for n in range(0, 4):
+        elems = [('t', k + 1) for k in range(n)]
+        out.append(("literal:list%d.len" % n, ('lenlit', elems)))
+        out.append(("literal:list%d.len+t" % n, ('bin', '+', ('lenlit', elems), ('t', n + 1))))
+        out.append(("literal:f1(list%d.len)" % n, ('call', 'f1', [('lenlit', elems)])))
+        pairs = [(('t', 2 * k + 1), ('t', 2 * k + 2)) for k in range(n)]
+        out.append(("literal:map%d.len" % n, ('mlenlit', pairs)))
+    out.append(("literal:list_of_sub.len", ('lenlit', [('bin', '-', ('t', 1), ('t', 2)), ('rec', 'ra', [('lit', 3)])])))
+    out.append(("literal:nested_list.len", ('lenlit', [('lenlit', [('t', 1), ('t', 2)]), ('t', 3)])))
     return out
 
 
